@@ -28,7 +28,7 @@ RULE = (
     "the letter case of method / arrangement / fluid / flow type / timestep is changed. Oracle for the verdict: an independent "
     "section-by-section jsonschema validation (upper-cased names) decides valid/invalid; validate_input_file must return 0 iff "
     "valid (raising counts as not accepted). Oracle for the exit status: each document x CLI shape {--validate-only, run with "
-    "output directory, run without output directory, --convert IDF, --convert XYZ} through click's CliRunner in-process (bulk) "
+    "output directory, run without output directory, --convert IDF, --convert XYZ, each --convert also with an output directory} through click's CliRunner in-process (bulk) "
     "and through a real subprocess (sample): non-zero whenever the document is invalid, the option unsupported or no output "
     "produced; zero only for --validate-only on a valid file or when the six output files exist (full runs use the L2 seam). "
     "Non-trivial = corrupted or case-varied document; distinct by (base, section, field, operator, CLI shape)."
@@ -170,7 +170,7 @@ def apply(doc, section, field, op):
     return d
 
 
-SHAPES = ["validate_only", "run_outdir", "run_no_outdir", "convert_idf", "convert_xyz"]
+SHAPES = ["validate_only", "run_outdir", "run_no_outdir", "convert_idf", "convert_xyz", "convert_xyz_outdir", "convert_idf_outdir"]
 
 
 def _cli_inprocess(path, shape, outdir):
@@ -179,7 +179,9 @@ def _cli_inprocess(path, shape, outdir):
     import ghedesigner.manager as mg
 
     args = {"validate_only": [str(path), "--validate-only"], "run_outdir": [str(path), str(outdir)], "run_no_outdir": [str(path)],
-            "convert_idf": [str(path), "--convert", "IDF"], "convert_xyz": [str(path), "--convert", "XYZ"]}[shape]
+            "convert_idf": [str(path), "--convert", "IDF"], "convert_xyz": [str(path), "--convert", "XYZ"],
+            "convert_xyz_outdir": [str(path), str(outdir), "--convert", "XYZ"],
+            "convert_idf_outdir": [str(path), str(outdir), "--convert", "IDF"]}[shape]
     with gs.layer_ctx("L2"), warnings.catch_warnings():
         warnings.simplefilter("ignore")
         res = CliRunner().invoke(mg.run_manager_from_cli, args, catch_exceptions=True)
@@ -188,7 +190,9 @@ def _cli_inprocess(path, shape, outdir):
 
 def _cli_subprocess(path, shape, outdir):
     args = {"validate_only": [str(path), "--validate-only"], "run_outdir": [str(path), str(outdir)], "run_no_outdir": [str(path)],
-            "convert_idf": [str(path), "--convert", "IDF"], "convert_xyz": [str(path), "--convert", "XYZ"]}[shape]
+            "convert_idf": [str(path), "--convert", "IDF"], "convert_xyz": [str(path), "--convert", "XYZ"],
+            "convert_xyz_outdir": [str(path), str(outdir), "--convert", "XYZ"],
+            "convert_idf_outdir": [str(path), str(outdir), "--convert", "IDF"]}[shape]
     code = ("import sys, warnings; warnings.simplefilter('ignore'); from vlib import surrogate; surrogate.install_l2(); "
             "from ghedesigner.manager import run_manager_from_cli; sys.argv = ['ghedesigner'] + sys.argv[1:]; run_manager_from_cli()")
     r = subprocess.run([sys.executable, "-c", code] + args, cwd=core.VERIF, capture_output=True, text=True, timeout=3600)
@@ -273,9 +277,15 @@ def check(case, rec):
         elif not must_zero and code == 0:
             why = "the document is invalid" if not valid else {"run_no_outdir": "no output directory was given, nothing was produced",
                                                                 "convert_idf": "the input is not a summary, nothing was converted",
-                                                                "convert_xyz": "the conversion format is unsupported"}.get(shape, "")
+                                                                "convert_xyz": "the conversion format is unsupported",
+                                                                "convert_xyz_outdir": "the conversion format is unsupported",
+                                                                "convert_idf_outdir": "the input is not a summary, nothing was converted",
+                                                                }.get(shape, "")
             raise Violation(f"{label}: CLI shape {shape} exits 0 although {why} ({how})",
                             sig={"kind": "exit_status", "shape": shape, "valid": valid, "code0": True})
+        if shape.startswith("convert") and produced:
+            raise Violation(f"{label}: CLI shape {shape} wrote the design outputs although a conversion was requested ({how})",
+                            sig={"kind": "outputs_on_convert", "shape": shape})
     rec.cls("shape_" + shape)
     if shape == "run_outdir":
         rec.cls("outputs_written" if produced else "no_outputs")
@@ -314,7 +324,8 @@ def search_bulk(ctx):
         # seeded systematic sample
         step = max(1, len(cases) // 1100)
         off = ctx.seed % step
-        cases = cases[off::step]
+        # every CLI shape on every uncorrupted base document is always run; the corrupted ones are sampled
+        cases = [c for c in cases if c["op"] == "none"] + [c for c in cases[off::step] if c["op"] != "none"]
     cases = [c for c in cases if cheap(c)]
     ctx.rec.notes["bulk_cases_total"] = len(cases)
     ctx.each(cases[ctx.shard::ctx.nshards])
